@@ -437,7 +437,9 @@ def _decorate_namespace_property(
             contract_checker.__postconditions__ = postconditions  # type: ignore
 
     if fget != value.fget or fset != value.fset or fdel != value.fdel:
-        namespace[key] = property(fget=fget, fset=fset, fdel=fdel, doc=value.__doc__)
+        namespace[key] = icontract._checkers.rebuild_property(
+            prop=value, fget=fget, fset=fset, fdel=fdel
+        )
 
 
 def _dbc_decorate_namespace(
